@@ -25,9 +25,30 @@ class JobResult:
         self.cmd = ''
 
 
+class _OutFile:
+    def __init__(self, path):
+        self.path = path
+
+    def read(self):
+        try:
+            with open(self.path, 'rb') as f:
+                return f.read()
+        except OSError:
+            return b''
+
+
+_seq = [0]
+
+
 def _popen(cmd, cwd, env=None):
-    return subprocess.Popen(cmd, cwd=cwd, stdout=subprocess.PIPE, stderr=subprocess.STDOUT, env=env,
-                            preexec_fn=_limits, stdin=subprocess.DEVNULL)
+    """start a process with its output in a file (a pipe would block a solver that prints a large model)"""
+    _seq[0] += 1
+    path = os.path.join(cwd, '.out.%d.%d' % (os.getpid(), _seq[0]))
+    f = open(path, 'wb')
+    p = subprocess.Popen(cmd, cwd=cwd, stdout=f, stderr=subprocess.STDOUT, env=env, preexec_fn=_limits, stdin=subprocess.DEVNULL)
+    f.close()
+    p.stdout = _OutFile(path)
+    return p
 
 
 def _kill(p):
@@ -110,10 +131,18 @@ def cbmc_job(workdir, name, harness_file, entry, enforce=None, replace=(), loop_
             flag = []
         cmd = ['cbmc'] + flag + list(extra_cbmc) + sel + [b]
         procs.append([sv, _popen(cmd, workdir, env), cmd, None])
-    cp = None
+    cprocs = []
     if expect_canary and canary_ids:
-        ccmd = ['cbmc'] + (['--cvc5'] if smt else []) + list(extra_cbmc) + ['--property', canary_ids[0], b]
-        cp = _popen(ccmd, workdir)
+        # canary: dump the reachability formula of assert(0) and ask the raw solvers for `sat` (no model parsing needed)
+        cfile = os.path.join(workdir, name + '.canary.smt2')
+        if smt:
+            run(['cbmc', '--cvc5', '--outfile', cfile] + list(extra_cbmc) + ['--property', canary_ids[0], b], cwd=workdir, timeout=120)
+            if os.path.exists(cfile):
+                for sv_ in ('z3', 'z3-new', 'cvc5'):
+                    if shutil.which(sv_):
+                        cprocs.append((sv_, _popen([sv_, cfile], workdir)))
+        else:
+            cprocs.append(('sat', _popen(['cbmc'] + list(extra_cbmc) + ['--property', canary_ids[0], b], workdir)))
     r.cmd = ' '.join(cc) + ' && ' + ' '.join(gi) + ' && cbmc --%s <properties> %s' % ('|'.join(solvers), os.path.basename(b))
     logs = []
     deadline = time.time() + timeout
@@ -159,22 +188,36 @@ def cbmc_job(workdir, name, harness_file, entry, enforce=None, replace=(), loop_
         else:
             r.status, r.detail = 'discharged', ''
     # canary
-    if cp is not None:
-        try:
-            o, _ = cp.communicate(timeout=max(1, canary_timeout - (time.time() - t0)) if r.status != 'discharged' else canary_timeout)
-            o = o.decode('utf-8', 'replace')
-            cres = [x for x in parse_cbmc(o) if x[0] in canary_ids]
-            if cres and cres[0][2] == 'FAILURE':
-                r.canary = 'reachable'
-            elif cres and cres[0][2] == 'SUCCESS':
-                r.canary = 'unreachable'
-                logs.append('--- canary\n' + o[-2000:])
-            else:
-                r.canary = 'undecided'
-        except subprocess.TimeoutExpired:
-            _kill(cp)
-            cp.communicate()
-            r.canary = 'undecided'
+    if cprocs:
+        cdead = time.time() + canary_timeout
+        r.canary = 'undecided'
+        live = list(cprocs)
+        while live and time.time() < cdead and r.canary == 'undecided':
+            for sv_, p_ in list(live):
+                if p_.poll() is None:
+                    continue
+                live.remove((sv_, p_))
+                o = p_.stdout.read().decode('utf-8', 'replace')
+                if sv_ == 'sat':
+                    cres = [x for x in parse_cbmc(o) if x[0] in canary_ids]
+                    if cres and cres[0][2] == 'FAILURE':
+                        r.canary = 'reachable'
+                    elif cres and cres[0][2] == 'SUCCESS':
+                        r.canary = 'unreachable'
+                else:
+                    first = o.strip().splitlines()[0].strip() if o.strip() else ''
+                    if first == 'sat':
+                        r.canary = 'reachable'
+                    elif first == 'unsat':
+                        r.canary = 'unreachable'
+            if r.canary == 'undecided' and live:
+                time.sleep(0.05)
+        for sv_, p_ in live:
+            _kill(p_)
+            try:
+                p_.stdout.read()
+            except Exception:
+                pass
         if r.canary == 'unreachable' and r.status == 'discharged':
             r.status, r.detail = 'vacuous', 'canary unreachable: preconditions/axioms contradictory'
     r.log = '\n'.join(logs)
